@@ -42,7 +42,7 @@ func init() {
 	rec.Assume("reference point model (last write wins per series/field/timestamp) and the harness' three-valued predicate evaluator are trusted")
 	rec.Assume("a tag a series lacks compares as the empty string (InfluxQL tag semantics used by the read service); value comparisons between a field and a literal of another type, and any comparison on unsigned fields, are treated as undefined: such series are only checked for soundness (no invented / out-of-range / duplicated points)")
 	rec.Assume("series returned with zero points are tolerated (consumers skip empty cursors); the order of series inside a group / inside a filter result is not asserted")
-	rec.Assume("every shard has at most 4 TSM snapshots, so the open finding keycursor-cyclic-block-order (needs >12 blocks per key) cannot interfere")
+	rec.Assume("every shard has at most 5 TSM snapshots, so the open finding keycursor-cyclic-block-order (needs >12 blocks per key) cannot interfere")
 }
 
 // request is one generated read.
@@ -104,7 +104,11 @@ func genRequest(t *rapid.T, d *dataset, kind string) *request {
 		if rapid.IntRange(0, 5).Draw(t, "gnone") == 0 {
 			r.GroupNone = true
 		} else {
-			r.GroupKeys = rapid.SliceOfNDistinct(rapid.SampledFrom(groupKeyDomain), 0, 3, rapid.ID[string]).Draw(t, "gkeys")
+			dom := groupKeyDomain
+			if d.Wide != nil {
+				dom = wideGroupKeyDomain
+			}
+			r.GroupKeys = rapid.SliceOfNDistinct(rapid.SampledFrom(dom), 0, 3, rapid.ID[string]).Draw(t, "gkeys")
 		}
 		switch rapid.IntRange(0, 9).Draw(t, "agg") {
 		case 0:
@@ -323,6 +327,7 @@ func (b *built) checkFilter(t *rapid.T, test string, r *request) {
 		}
 	}
 	classifyRequest(r, "filter")
+	rec.Class("filter:series-with-points-returned:" + sizeBucket(returned))
 	if returned == 0 {
 		rec.Class("filter:result-empty")
 	} else {
@@ -607,6 +612,7 @@ func (b *built) checkGroup(t *rapid.T, test string, r *request) {
 		}
 	}
 	classifyRequest(r, "group")
+	classifyGroupSize(r, groups, returned)
 	switch {
 	case r.GroupNone:
 		rec.Class("group:mode-none")
